@@ -65,7 +65,7 @@ def run(ctx):
     # every other caller of Tree::edit in the workspace must be perform_edit (the one edit funnel)
     all_edit = [c for f in prog.fns.values() for c in f.calls if is_tree_edit(c)]
     for c in all_edit:
-        ctx.ob("R1", "Tree::edit site in %s" % c.fn.id, c.fn.id in ("ast_grep_core::source::perform_edit",),
+        ctx.ob("R1", "Tree::edit site in %s" % c.fn.id, c.fn.id in ("ast_grep_core::source::perform_edit",) or c.fn.id in writers,  # do_edit itself (helper inlined by hand) is the same funnel; the edit-count rule above bounds it
                "call of Tree::edit %s" % ("inside the edit funnel perform_edit" if c.fn.id == "ast_grep_core::source::perform_edit" else "outside perform_edit: a second place that shifts the old tree"),
                where=c.fn.loc(c.line))
     ctx.floor("R1", "Tree::edit sites", len(all_edit), 1)
